@@ -3,6 +3,7 @@
 -/
 import Amoco.Model.Value
 import Amoco.Props.C08
+import Amoco.Props.C01
 
 namespace Amoco.Value.Props
 
@@ -73,6 +74,19 @@ theorem unsound_rewrite_is_visible :
     let rw : Tm → Option Tm := fun t => match t with | .leaf 1 => some (.leaf 2) | _ => none
     den S (rewrite rw (.node 0 [.leaf 1, .leaf 5])) ≠ den S (.node 0 [.leaf 1, .leaf 5]) := by
   decide
+
+/-- **Instance on amoco's algebra.**  `e.simplify(**opts)` rewrites the operand object `e` in place into
+    what the functional model `simplify` returns.  By C01's `simplify_sound` / C12's width theorem the
+    object seen afterwards — by its owner and by every expression that embeds it — has the same width and
+    the same bit-vector value under every valuation: the rewrite is `Sound` in the sense above (for the
+    sign-agnostic fragment `Plain`, without widening, threshold off, under `NoRenderClash`). -/
+theorem operand_after_simplify (cfg : Amoco.Cfg) (hc : Amoco.C01.NoThreshold cfg) (ρ : Amoco.Expr.Val)
+    (hρ : Amoco.C01.NoRenderClash ρ) (fuel : Nat) (opts : Amoco.Opts) (ho : opts.widening = false)
+    (e post : Amoco.Expr) (he : Amoco.Expr.WF e) (hp : Amoco.Expr.Plain e)
+    (h : Amoco.simplify cfg fuel opts e = .ok post) :
+    post.size = e.size ∧ Amoco.Expr.ideal ρ post = Amoco.Expr.ideal ρ e := by
+  have := Amoco.C01.simplify_sound cfg hc ρ hρ fuel opts ho e post he hp h
+  exact ⟨this.2.1, this.2.2.2⟩
 
 /-- memory half: operations on one live memory map (or on a copy) leave every other live map
     untouched — restated from C08 (functional model; the guarantee for the Python objects comes from
